@@ -2,6 +2,9 @@ import VProofs.C01
 import VProofs.C06
 import VProofs.C09
 import VProofs.C12
+import VProofs.Lemmas.UseNew
+import VProofs.Lemmas.UseAsm
+import VProofs.Lemmas.UseTag
 /-!
 # C11 — Training is total and its output is always usable
 
@@ -13,18 +16,30 @@ Property theorems only (helper lemmas live in `VProofs/Lemmas/Use*.lean`).
 -/
 namespace V
 
-/-- every well-formed model (with well-formed tag models) is accepted by the predictor, with and without tag prediction, in
-every build configuration … -/
-theorem C11_predictor_accepts (cfg : Cfg) (m : WModel) (hm : WFModel m) (ht : WFTags m) (pt : Bool)
-    (hcfg : pt = true → cfg.tagPred = true) : ∃ p, Predictor.new cfg m pt = .ok p := by
-  sorry
+/-- every well-formed model (with well-formed tag models) whose tag n-grams each carry at least one weight is accepted by
+the predictor, with and without tag prediction, in every build configuration …
+
+`hw` is needed: a tag n-gram with an EMPTY `weights` list defeats the "nothing to score" early return of
+`CharScorer::new` / `TypeScorer::new` but adds no pattern, so a model with no boundary character n-grams and no
+dictionary (resp. no type n-grams) whose only tag n-gram has no weights satisfies `WFModel` and `WFTags` and yet makes
+`Predictor.new cfg m true` return `.err .invalidModel` (empty pattern set).  The models the trainer assembles satisfy
+`hw` (`C11_tags_weights_ne`). -/
+theorem C11_predictor_accepts (cfg : Cfg) (m : WModel) (hm : WFModel m) (ht : WFTags m)
+    (hw : ∀ tm ∈ m.tagModels, (∀ d ∈ tm.charNgrams, d.weights ≠ []) ∧ (∀ d ∈ tm.typeNgrams, d.weights ≠ []))
+    (pt : Bool) (hcfg : pt = true → cfg.tagPred = true) : ∃ p, Predictor.new cfg m pt = .ok p :=
+  C11L.new_total cfg m hm
+    (fun tm htm d hd => ⟨(ht.char_ok tm htm d hd).1, (hw tm htm).1 d hd⟩)
+    (fun tm htm d hd => ⟨(ht.type_ok tm htm d hd).1, (hw tm htm).2 d hd⟩) pt hcfg
 
 /-- … and the predictor then predicts and tags ANY non-empty text without panicking, with or without score storing -/
 theorem C11_predict_total (cfg : Cfg) (m : WModel) (hm : WFModel m) (ht : WFTags m) (pt : Bool) (p : Predictor)
     (hp : Predictor.new cfg m pt = .ok p) (store : Bool) (s : Sentence) (hs : SentOK s) (pid : Nat) :
     ∃ s1, p.predict pid s = .ok s1 ∧
       (pt = true → ∃ s2, ({ p with storeTagScores := store } : Predictor).predictTags s1 = .ok s2) := by
-  sorry
+  obtain ⟨s1, h1, _⟩ := C01_scores cfg m hm pt p hp s hs pid
+  refine ⟨s1, h1, fun hpt => ?_⟩
+  subst hpt
+  exact C11L.predictTags_total cfg m hm ht p hp store s s1 hs pid h1
 
 /-- the boundary model assembled from the learner's output is well-formed whenever both windows are at least 1 (any n-gram
 sizes, any dictionary accepted by `Trainer::new` with length bucket ≥ 1, any quantised weights) -/
@@ -32,14 +47,14 @@ theorem C11_assembled_wf (cfg : TrainCfg) (hc : CfgOK cfg) (hcw : 1 ≤ cfg.char
     (htw : 1 ≤ cfg.typeW ∧ cfg.typeW ≤ 255) (hlen : ∀ w ∈ cfg.dictWords, w.length ≤ 32767)
     (trace : List (Feature × Int)) (bias : Int) (tms : List TagModel)
     (hg : ∀ e ∈ trace, Generable cfg e.1) (m : WModel) (h : assembleBoundary cfg trace bias tms = .ok m) :
-    WFModel m := by
-  sorry
+    WFModel m :=
+  C11L.assembled_wf cfg hc.words_ne hc.words_nodup hc.maxlen_pos hcw htw hlen trace bias tms hg m h
 
 /-- assembling a tag model never panics when every recorded class lies inside the trainable classes of its token -/
 theorem C11_tag_assemble_total (token : List Char) (examples : List (List Tag)) (trace : List TagTraceItem)
     (hslots : ∀ t ∈ trace, t.token = token → t.offset + t.cls < nClass (collectTags examples)) :
-    ∃ tm, assembleTag token examples trace = .ok tm := by
-  sorry
+    ∃ tm, assembleTag token examples trace = .ok tm :=
+  C11L.assembleTag_total token examples trace hslots
 
 /-- the assembled tag models are well-formed (distinct tokens; bias and weight vectors sized to the trainable classes;
 non-empty n-grams; type codes in 1..6) when the recorded features are tag features of actual tokens -/
@@ -50,6 +65,45 @@ theorem C11_tags_wf (m : WModel) (corpus : List TagExample) (dict : List (List C
        | .charNgram g _ => g ≠ []
        | .typeNgram g _ => g ≠ [] ∧ ∀ c ∈ g, 1 ≤ c ∧ c ≤ 6))
     (hm : m.tagModels = tms) : WFTags m := by
-  sorry
+  subst hm
+  have hkeys : ∀ tm ∈ m.tagModels, tm.bias.length = nClass tm.tags ∧
+      (∀ d ∈ tm.charNgrams, d.ngram ≠ [] ∧ ∀ w ∈ d.weights, w.weights.length = nClass tm.tags) ∧
+      (∀ d ∈ tm.typeNgrams, d.ngram ≠ [] ∧ (∀ t ∈ d.ngram, 1 ≤ t ∧ t ≤ 6) ∧
+        ∀ w ∈ d.weights, w.weights.length = nClass tm.tags) := by
+    intro tm htm
+    obtain ⟨token, examples, hok⟩ := C11L.assembleTags_mem corpus dict trace _ h tm htm
+    obtain ⟨_, _, hb, hcs, hts⟩ := C12_sizes token examples trace tm hok
+    obtain ⟨hck, htk⟩ := C11L.assembleTag_keys token examples trace tm (fun g => g ≠ [])
+      (fun g => g ≠ [] ∧ ∀ c ∈ g, 1 ≤ c ∧ c ≤ 6)
+      (fun t ht g rel hf => hne t ht (.charNgram g rel) hf) (fun t ht g rel hf => hne t ht (.typeNgram g rel) hf) hok
+    exact ⟨hb, fun d hd => ⟨(hck d hd).1, hcs d hd⟩, fun d hd => ⟨(htk d hd).1.1, (htk d hd).1.2, hts d hd⟩⟩
+  exact ⟨(C12_tokens corpus dict trace _ h).1, fun tm htm => (hkeys tm htm).1, fun tm htm => (hkeys tm htm).2.1,
+    fun tm htm => (hkeys tm htm).2.2⟩
+
+/-- the tag models the trainer assembles never contain a tag n-gram without weights (`groupTagWeights` emits an n-gram
+only together with a weight), which is the extra hypothesis of `C11_predictor_accepts` -/
+theorem C11_tags_weights_ne (corpus : List TagExample) (dict : List (List Char × List Tag))
+    (trace : List TagTraceItem) (tms : List TagModel) (h : assembleTags corpus dict trace = .ok tms) :
+    ∀ tm ∈ tms, (∀ d ∈ tm.charNgrams, d.weights ≠ []) ∧ (∀ d ∈ tm.typeNgrams, d.weights ≠ []) := by
+  intro tm htm
+  obtain ⟨token, examples, hok⟩ := C11L.assembleTags_mem corpus dict trace tms h tm htm
+  obtain ⟨hck, htk⟩ := C11L.assembleTag_keys token examples trace tm (fun _ => True) (fun _ => True)
+    (fun _ _ _ _ _ => trivial) (fun _ _ _ _ _ => trivial) hok
+  exact ⟨fun d hd => (hck d hd).2, fun d hd => (htk d hd).2⟩
+
+/-! ## the hypothesis `hw` of `C11_predictor_accepts` cannot be dropped: a well-formed model whose only character pattern
+would be a tag n-gram without weights is rejected (with an error, not a panic) when tag prediction is requested -/
+
+def C11_exNoWeights : WModel :=
+  { charNgrams := [], typeNgrams := [⟨[2], [3, 4]⟩], dict := [], bias := 0, charW := 1, typeW := 1,
+    tagModels := [{ token := ['a'], tags := [], charNgrams := [⟨['b'], []⟩], typeNgrams := [], bias := [] }] }
+
+example : WFModel C11_exNoWeights :=
+  { charW_pos := by decide, charW_le := by decide, typeW_pos := by decide, typeW_le := by decide,
+    char_nodup := by decide, char_shape := by decide, type_nodup := by decide, type_shape := by decide,
+    dict_nodup := by decide, dict_shape := by decide }
+example : WFTags C11_exNoWeights := ⟨by decide, by decide, by decide, by decide⟩
+example : (Predictor.new {} C11_exNoWeights true).map (fun _ => ()) = .err .invalidModel := by decide
+example : (Predictor.new {} C11_exNoWeights false).isOk = true := by decide
 
 end V
